@@ -796,6 +796,11 @@ static void lock_acquire(void *m)
 static void lock_release(void *m)
 {
 	int k = lk_find(m, 0);
+	if (!passthru && (k < 0 || lk[k].owner != me) && simk_obs.deadlock) {
+		/* releasing a lock that the thread does not hold: the critical section it closes was never
+		 * entered (undefined behaviour for a real mutex or spin lock) */
+		simk_obs.deadlock("a thread releases a lock that it does not hold");
+	}
 	if (k >= 0)
 		lk[k].owner = -1;
 }
